@@ -19,6 +19,9 @@
 // signal) kills the child the parent prints "<id> CRASH:<kind>" and continues
 // with the next case in a new child.
 #include <algorithm>
+#include <cerrno>
+#include <climits>
+#include <cwchar>
 #include <cstdarg>
 #include <iostream>
 #include <iterator>
@@ -203,6 +206,25 @@ template<size_t L> std::string run(const std::vector<std::string>& w)
          else if (n == "app_it") { size_t p = num(a[1]), q = num(a[2]); if (!(p <= q && q <= olen)) throw OutOfDomain{};
                                    STD(s.append(os.begin() + p, os.begin() + q)); f.append(CIt(&o, p), CIt(&o, q)); }
          else if (n == "sprintf") { std::string x = ustr(a[1]); STD(s = std::string(x.c_str())); f.sprintf("%s", x.c_str()); }
+         else if (n == "sprintf_lc" || n == "sprintf_wide")
+         {
+            // sprintf whose vsnprintf call fails: a wide character that cannot be converted in the "C"
+            // locale, or field widths of more than INT_MAX characters in total.  Whether the C library
+            // really failed is seen through errno; if it did not, the step is reported as "nofire".
+            std::string x = ustr(a[1]);
+            x = std::string(x.c_str());
+            errno = 0;
+            if (n == "sprintf_lc") f.sprintf((x + "%lc").c_str(), static_cast<wint_t>(0x20ac));
+            else f.sprintf((x + "%*d%*d").c_str(), INT_MAX, 1, INT_MAX, 2);
+            const bool fired = (errno == EILSEQ) || (errno == EOVERFLOW);
+            if (!fired)
+            {
+               if (!prop.empty()) { prop += ' '; intl += ' '; }
+               prop += "nofire"; intl += "-";
+               continue;
+            }
+            STD(s.clear());
+         }
          else if (n == "rep_fs") { size_t p = num(a[1]), c = num(a[2]); STD(s.replace(p, c, os)); f.replace(p, c, o); }
          else if (n == "rep_s") { size_t p = num(a[1]), c = num(a[2]); std::string x = ustr(a[3]); STD(s.replace(p, c, x)); f.replace(p, c, x); }
          else if (n == "rep_fss") { size_t p = num(a[1]), c = num(a[2]), p2 = num(a[3]), c2 = num(a[4]); STD(s.replace(p, c, os, p2, c2)); f.replace(p, c, o, p2, c2); }
